@@ -49,8 +49,11 @@ structure Th where
   intrSince : List Int := []
   /-- ghost: did this thread's latest semaphore subtraction (inside the current call) succeed -/
   subOk : Bool := false
-  /-- ghost: what the latest `thread_usleep*` of this thread returned (ret, errno) -/
+  /-- ghost: what the first `thread_usleep*` inside the current API call returned (ret, errno); for
+      `condition_variable::wait` that is the sleep in the condition variable's queue — later sleeps of the
+      same call (re-acquiring the mutex) do not change how the waiter was woken -/
   lastResume : Int × Int := (0, 0)
+  resumed : Bool := false
   /-- ghost, for a notifier: waiters present when notify was called / woken by it so far -/
   nExpect : Nat := 0
   nWoken : Nat := 0
@@ -172,7 +175,7 @@ def preCall (s : St) (t : Nat) : Option String :=
 def effCall (s : St) (t : Nat) (op : Op) : St :=
   let expect := match op with | .notify c _ => (s.queue c).length | _ => 0
   setTh s t { s.th t with op := op, callAt := s.now, shutAtCall := (s.th t).shutdown, subOk := false,
-                          nExpect := expect, nWoken := 0 }
+                          nExpect := expect, nWoken := 0, resumed := false }
 
 -- `prepare_usleep`
 /-- the deadline is never earlier than what the API call asked for (shutdown caps it at 10 ms) -/
@@ -207,7 +210,7 @@ def preSleep (s : St) (t : Nat) (q dl : Option Nat) : Option String :=
     release the mutex as the deferred action of the context switch -/
 def deferredOf (s : St) (t : Nat) (q : Option Nat) : Option (Nat × Nat) :=
   match (s.th t).op with
-  | .cvwait _ m _ => some (t, m)
+  | .cvwait c m _ => if q = some c then some (t, m) else s.deferred   -- (not when it parks on the mutex to re-acquire it)
   | .rwlock rw _ => if q = some (s.rw rw).cv then some (t, (s.rw rw).mtx) else s.deferred
   | _ => s.deferred
 
@@ -270,7 +273,8 @@ def preResume (s : St) (t : Nat) (r e : Int) : Option String :=
     if (r, if r < 0 then e else 0) ≠ expect then some "sleep returned a value different from the pending wake-up reason"
     else none
 def effResume (s : St) (t : Nat) (r e : Int) : St :=
-  setTh s t { s.th t with err := 0, dl := none, lastResume := (r, if r < 0 then e else 0) }
+  setTh s t { s.th t with err := 0, dl := none, resumed := true,
+                          lastResume := if (s.th t).resumed then (s.th t).lastResume else (r, if r < 0 then e else 0) }
 
 -- `thread_yield`
 def preYield (s : St) (t : Nat) : Option String :=
